@@ -220,6 +220,44 @@ int main(int argc, char** argv) {
         return 0;
     }
 
+    if (!strcmp(kind, "large")) {
+        /* sizes as operands: parameter sets with l = 5..257 slots FRESH FROM SETUP (projective points with z != 1, which unmarshalled objects
+         * never have) and keys with many free slots are marshalled, parsed through the Go protocol and marshalled again */
+        static const int Ls[] = {5, 8, 9, 15, 16, 17, 31, 32, 33, 63, 64, 65, 100, 255, 256, 257};
+        unsigned long long nlarge = 0;
+        for (size_t li = 0; li < sizeof(Ls) / sizeof(Ls[0]); li++) {
+            if (li < start || li > end) continue;
+            int l = Ls[li];
+            for (int s = 0; s < 2; s++) {
+                snprintf(g_case, sizeof(g_case), "large l=%d signatures=%d compressed=%d checked=%d idx=%zu", l, s, comp, checked, li);
+                params_t p; embedded_pairing_wkdibe_masterkey_t msk;
+                p.h = (embedded_pairing_wkdibe_g1_t*) malloc((size_t) l * sizeof(embedded_pairing_wkdibe_g1_t));
+                embedded_pairing_wkdibe_setup(&p, &msk, l, s != 0, det_random);
+                size_t ml = embedded_pairing_wkdibe_params_get_marshalled_length(&p, comp);
+                uint8_t* out = (uint8_t*) malloc(ml);
+                embedded_pairing_wkdibe_params_marshal(out, &p, comp);
+                parse_params(out, ml, comp, checked);
+                /* a key with l-2 free slots */
+                embedded_pairing_wkdibe_attribute_t attrs[2];
+                memset(attrs, 0, sizeof(attrs));
+                attrs[0].idx = 0; ((uint8_t*) &attrs[0].id)[0] = 7;
+                attrs[1].idx = (uint32_t) (l - 1); ((uint8_t*) &attrs[1].id)[0] = 9;
+                embedded_pairing_wkdibe_attributelist_t al; al.attrs = attrs; al.length = 2; al.omitAllFromKeysUnlessPresent = false;
+                secretkey_t k; k.b = (embedded_pairing_wkdibe_freeslot_t*) malloc((size_t) (l - 2) * sizeof(embedded_pairing_wkdibe_freeslot_t));
+                embedded_pairing_wkdibe_keygen(&k, &p, &msk, &al, det_random);
+                size_t kl = embedded_pairing_wkdibe_secretkey_get_marshalled_length(&k, comp);
+                uint8_t* kout = (uint8_t*) malloc(kl);
+                embedded_pairing_wkdibe_secretkey_marshal(kout, &k, comp);
+                parse_secretkey(kout, kl, comp, checked);
+                free(kout); free(k.b); free(out); free(p.h);
+                nlarge += 2;
+            }
+        }
+        printf("STAT {\"kind\":\"large\",\"compressed\":%d,\"checked\":%d,\"fill\":\"alphabet\",\"calls\":%llu,\"lengths_accepted\":0,\"objects_accepted\":%llu,\"remarshalled\":%llu,\"last_len\":16}\n",
+               comp, checked, nlarge, n_accepted, n_remarshal);
+        return 0;
+    }
+
     if (!strcmp(kind, "placement")) {
         /* buffer placement: the marshalling interface takes untyped byte buffers, which callers embed at arbitrary offsets (a frame with
          * a 4-byte length prefix, a packed record): every valid object is marshalled to and unmarshalled from a buffer whose start
